@@ -232,22 +232,44 @@ theorem C06_graceful_no_new_requests {c : Cfg} {sig : Bool} {s : St} (h : Reach 
   poll_draining c s i (C06_invariant h) hd
 
 /-- **C06_graceful (the in-flight request is still answered, with `Connection: close`).**  While
-DRAINING, when the handler of the in-flight request completes, the response loop turns it into a
-response whose head carries `connection: close` (appended to the write buffer). -/
+DRAINING, when the handler of the in-flight request completes — with `Ok` (→ `send_response`,
+status 200) **or with `Err`** (→ `send_error_response`, the error's response, status 500) — the
+response loop turns it into a response whose head carries `connection: close` (appended to the
+write buffer). -/
 theorem C06_graceful_inflight_answered (c : Cfg) (i : In) (s : St) (rid : Nat) (kind : ReqKind) (body : BodyKind)
     (hd : s.draining = true) (hst : s.st = .service rid kind) (hr : i.hReady rid = some body) :
-    ∃ s' rest, respStep c i s = .next s' [] ∧ s'.writeBuf = s.writeBuf ++ Out.head 200 true :: rest := by
-  refine ⟨sendResponse c (dropReceiver s rid) rid 200 body, ?_⟩
+    ∃ s' rest, respStep c i s = .next s' [] ∧
+      s'.writeBuf = s.writeBuf ++ Out.head (if i.hErr rid then 500 else 200) true :: rest := by
+  refine ⟨handlerResp c i (dropReceiver s rid) rid body, ?_⟩
   have hf := dropReceiver_fields s rid
   have hdr : (dropReceiver s rid).draining = true := by rw [hf.2.2.2.1]; exact hd
   cases body
   · refine ⟨[Out.bodyEnd], by simp [respStep, hst, hr], ?_⟩
-    simp [sendResponse, hdr, hf.2.2.2.2.1, finishResponse, closeForUnread, enterLinger]
-    split <;> (try split) <;> simp
+    unfold handlerResp
+    split <;>
+      (simp [sendResponse, hdr, hf.2.2.2.2.1, finishResponse, closeForUnread, enterLinger]
+       split <;> (try split) <;> simp)
   · refine ⟨[], by simp [respStep, hst, hr], ?_⟩
-    simp [sendResponse, hdr, hf.2.2.2.2.1]
+    unfold handlerResp
+    split <;> simp [sendResponse, hdr, hf.2.2.2.2.1]
   · refine ⟨[], by simp [respStep, hst, hr], ?_⟩
-    simp [sendResponse, hdr, hf.2.2.2.2.1]
+    unfold handlerResp
+    split <;> simp [sendResponse, hdr, hf.2.2.2.2.1]
+
+/-- every response encoded while DRAINING — by `send_response` or by `send_error_response` (error
+messages from the queue, the 408, service errors) — carries `connection: close` -/
+theorem C06_graceful_every_response_closes (c : Cfg) (s : St) (rid status : Nat) (body : BodyKind)
+    (hd : s.draining = true) :
+    (∃ rest, (sendResponse c s rid status body).writeBuf = s.writeBuf ++ Out.head status true :: rest) ∧
+    (∃ rest, (sendErrorResponse c s rid status body).writeBuf = s.writeBuf ++ Out.head status true :: rest) := by
+  have h : ∃ rest, (sendResponse c s rid status body).writeBuf = s.writeBuf ++ Out.head status true :: rest := by
+    cases body
+    · refine ⟨[Out.bodyEnd], ?_⟩
+      simp [sendResponse, hd, finishResponse, closeForUnread, enterLinger]
+      split <;> (try split) <;> simp
+    · exact ⟨[], by simp [sendResponse, hd]⟩
+    · exact ⟨[], by simp [sendResponse, hd]⟩
+  exact ⟨h, h⟩
 
 /-! ### a reading of sentence 3 that is *not* true of the code
 
